@@ -225,7 +225,8 @@ def load_known():
     """known_findings.json (the committed list) plus per-property fragments known_findings.d/*.json
     (same format; merged into known_findings.json by tools/build_manifest.py)."""
     out, seen = [], set()
-    files = ([KNOWN] if KNOWN.exists() else []) + sorted((VERIF / "known_findings.d").glob("*.json"))
+    # fragments first: a fragment is the source of truth for its entries, the merged file may be stale
+    files = sorted((VERIF / "known_findings.d").glob("*.json")) + ([KNOWN] if KNOWN.exists() else [])
     for f in files:
         data = json.loads(f.read_text())
         for x in data.get("findings", []):
